@@ -162,10 +162,151 @@ def r18_3(repo: Repo) -> RuleResult:
     return rr
 
 
-RULES = [r18_1, r18_2, r18_3]
+# --------------------------------------------------------------------------- R18.4 syntactic symmetry
+import copy as _copy
+
+SYMMETRIC = ("hellinger", "total_variation", "jensen_shannon_divergence", "symmetric_kl_divergence", "kantorovich1d")
+
+
+def _swap_id(name: str, a: str, b: str) -> str:
+    toks = name.split("_")
+    return "_".join(b if t == a else a if t == b else t for t in toks)
+
+
+_PAIR = ["x", "y"]
+
+
+class _Swap(ast.NodeTransformer):
+    def __init__(self, a, b):
+        self.a, self.b = a, b
+
+    def visit_Name(self, node):
+        node.id = _swap_id(node.id, self.a, self.b)
+        return node
+
+
+def _canon(e: ast.AST, signfree: Set[str]) -> str:
+    """Canonical text modulo commutativity of + * and/or ==, and the sign of differences under abs / squares."""
+    if isinstance(e, ast.BinOp) and isinstance(e.op, (ast.Add, ast.Mult)):
+        # flatten
+        items = []
+
+        def flat(x):
+            if isinstance(x, ast.BinOp) and type(x.op) is type(e.op):
+                flat(x.left)
+                flat(x.right)
+            else:
+                items.append(_canon(x, signfree))
+
+        flat(e)
+        return "(" + (" + " if isinstance(e.op, ast.Add) else " * ").join(sorted(items)) + ")"
+    if isinstance(e, ast.BinOp):
+        return "(%s %s %s)" % (_canon(e.left, signfree), type(e.op).__name__, _canon(e.right, signfree))
+    if isinstance(e, ast.BoolOp):
+        return "(" + (" and " if isinstance(e.op, ast.And) else " or ").join(sorted(_canon(v, signfree) for v in e.values)) + ")"
+    if isinstance(e, ast.Compare) and len(e.ops) == 1 and isinstance(e.ops[0], (ast.Eq, ast.NotEq)):
+        return "(%s %s %s)" % tuple(sorted([_canon(e.left, signfree), _canon(e.comparators[0], signfree)])[:1] + [type(e.ops[0]).__name__] + sorted([_canon(e.left, signfree), _canon(e.comparators[0], signfree)])[1:])
+    if isinstance(e, ast.Call):
+        fn = norm(e.func)
+        args = list(e.args)
+        if fn in ("np.abs", "abs", "np.fabs") and len(args) == 1 and isinstance(args[0], ast.BinOp) and isinstance(args[0].op, ast.Sub):
+            # |u - v| = |v - u| ; extra subtracted terms keep their place
+            u, v = args[0].left, args[0].right
+            return "%s(DIFF{%s})" % (fn, " , ".join(sorted([_canon(u, signfree), _canon(v, signfree)])))
+        return "%s(%s)" % (fn, ", ".join([_canon(a, signfree) for a in args] + ["%s=%s" % (k.arg, _canon(k.value, signfree)) for k in e.keywords]))
+    if isinstance(e, ast.Subscript):
+        # both arguments have the same length by contract: <x-ish>.shape[0] and <y-ish>.shape[0] are one dimension
+        if isinstance(e.value, ast.Attribute) and e.value.attr == "shape" and norm(e.slice) == "0" and isinstance(e.value.value, ast.Name):
+            nm = e.value.value.id
+            if _swap_id(nm, _PAIR[0], _PAIR[1]) != nm:
+                return "DIM"
+        return "%s[%s]" % (_canon(e.value, signfree), _canon(e.slice, signfree))
+    if isinstance(e, ast.Attribute):
+        return "%s.%s" % (_canon(e.value, signfree), e.attr)
+    if isinstance(e, ast.UnaryOp):
+        return "%s(%s)" % (type(e.op).__name__, _canon(e.operand, signfree))
+    if isinstance(e, ast.Tuple):
+        return "(%s)" % ", ".join(_canon(x, signfree) for x in e.elts)
+    return norm(e)
+
+
+def _stmt_facts(f: Func, fn_node: ast.FunctionDef) -> List[str]:
+    # names used only as v*v / abs(v) / v**2: the sign of their defining difference is irrelevant
+    loads: Dict[str, List[ast.AST]] = {}
+    pm = parents_map(fn_node)
+    for n in ast.walk(fn_node):
+        if isinstance(n, ast.Name) and isinstance(n.ctx, ast.Load):
+            loads.setdefault(n.id, []).append(n)
+    signfree = set()
+    for name, nodes in loads.items():
+        ok = True
+        for n in nodes:
+            par = pm.get(id(n))
+            if isinstance(par, ast.BinOp) and isinstance(par.op, ast.Mult) and norm(par.left) == norm(par.right) == name:
+                continue
+            if isinstance(par, ast.Call) and norm(par.func) in ("np.abs", "abs"):
+                continue
+            ok = False
+        if ok and nodes:
+            signfree.add(name)
+    facts = []
+
+    def walk(stmts, ctx):
+        for st in stmts:
+            if isinstance(st, ast.If):
+                c = ctx + ("if " + _canon(st.test, signfree),)
+                walk(st.body, c + ("T",))
+                walk(st.orelse, c + ("F",))
+            elif isinstance(st, (ast.For, ast.While)):
+                hdr = "for %s in %s" % (norm(st.target), _canon(st.iter, signfree)) if isinstance(st, ast.For) else "while " + _canon(st.test, signfree)
+                walk(st.body, ctx + (hdr,))
+            elif isinstance(st, ast.Assign):
+                tgt = norm(st.targets[0])
+                v = st.value
+                if isinstance(st.targets[0], ast.Name) and st.targets[0].id in signfree and isinstance(v, ast.BinOp) and isinstance(v.op, ast.Sub):
+                    val = "DIFF{%s}" % " , ".join(sorted([_canon(v.left, signfree), _canon(v.right, signfree)]))
+                else:
+                    val = _canon(v, signfree)
+                facts.append(" | ".join(ctx) + " :: %s = %s" % (tgt, val))
+            elif isinstance(st, ast.AugAssign):
+                facts.append(" | ".join(ctx) + " :: %s %s= %s" % (norm(st.target), type(st.op).__name__, _canon(st.value, signfree)))
+            elif isinstance(st, ast.Return):
+                facts.append(" | ".join(ctx) + " :: return %s" % (_canon(st.value, signfree) if st.value is not None else ""))
+            elif isinstance(st, ast.Raise):
+                facts.append(" | ".join(ctx) + " :: raise")
+            elif isinstance(st, ast.Expr) and isinstance(st.value, ast.Constant):
+                continue
+            else:
+                facts.append(" | ".join(ctx) + " :: " + norm(st))
+
+    walk(fn_node.body, ())
+    return sorted(facts)
+
+
+def r18_4(repo: Repo) -> RuleResult:
+    rr = RuleResult("R18.4", "each distance is syntactically symmetric in its two arguments (modulo commutativity and the sign of differences under abs / squares)", floor=5)
+    for name in SYMMETRIC:
+        f = repo.func(DIST, name)
+        a, b = f.params[0], f.params[1]
+        _PAIR[0], _PAIR[1] = a, b
+        orig = _stmt_facts(f, f.node)
+        swapped_node = _Swap(a, b).visit(_copy.deepcopy(f.node))
+        swapped = _stmt_facts(f, swapped_node)
+        if orig == swapped:
+            rr.ok(f, "swap(%s, %s)" % (a, b), "%d statements map onto themselves when the arguments are exchanged" % len(orig), f.node.lineno)
+        else:
+            only_o = [x for x in orig if x not in swapped]
+            only_s = [x for x in swapped if x not in orig]
+            rr.bad(f, "swap(%s, %s)" % (a, b),
+                   "the body is not invariant under exchanging `%s` and `%s`: %s has no counterpart (after the exchange it reads %s), so d(x, y) and d(y, x) are computed differently"
+                   % (a, b, [x.split(" :: ")[-1][:80] for x in only_o][:2], [x.split(" :: ")[-1][:80] for x in only_s][:2]), f.node.lineno)
+    return rr
+
+
+RULES = [r18_1, r18_2, r18_3, r18_4]
 CLAIM = (
     "R18.1 every sqrt(1 - q) in distances.py is clamped or dominated (CFG edge dominance) by a comparison excluding q > 1; "
     "R18.2 kind check (position vs element) on every store into the merged index array of sparse_sum / sparse_mul; "
-    "R18.3 dense and sparse Hellinger / total-variation handle the same zero-mass cases with the same constants."
+    "R18.3 dense and sparse Hellinger / total-variation handle the same zero-mass cases with the same constants; R18.4 the five dense distances are syntactically invariant under exchanging their arguments (statement multisets modulo commutativity and the sign of differences under abs / squares)."
 )
-NOT_DECIDED = "symmetry, the triangle inequality, vanishing on proportional inputs and closeness of sparse and dense values - numerical statements."
+NOT_DECIDED = "symmetry beyond the syntactic invariance of R18.4, the triangle inequality, vanishing on proportional inputs and closeness of sparse and dense values - numerical statements."
